@@ -62,11 +62,20 @@ pub fn convert_node(ast: &ASTTy, imp: &mut Imports, state: &State, ctx: &Context
         NodeTy::VariableDef { .. } | NodeTy::FunDef { .. } | NodeTy::FunArg { .. } => {
             convert_def(ast, imp, state, ctx)?
         }
-        NodeTy::Reassign { left, right, op } => Core::Assign {
-            left: Box::from(convert_node(left, imp, state, ctx)?),
-            right: Box::from(convert_node(right, imp, state, ctx)?),
-            op: CoreOp::try_from((ast, op))?,
-        },
+        NodeTy::Reassign { left, right, op } => {
+            let left = convert_node(left, imp, state, ctx)?;
+            match convert_node(right, imp, state, ctx)? {
+                // statements in Python: the assignment is pushed into the branches
+                right @ (Core::IfElse { .. } | Core::Match { .. }) if matches!(op, crate::parse::ast::node_op::NodeOp::Assign) => {
+                    append_assign(&right, &left, &None, imp)
+                }
+                right => Core::Assign {
+                    left: Box::from(left),
+                    right: Box::from(right),
+                    op: CoreOp::try_from((ast, op))?,
+                },
+            }
+        }
 
         NodeTy::Block { statements } => Core::Block {
             statements: convert_vec(statements, imp, state, ctx)?,
@@ -148,8 +157,14 @@ pub fn convert_node(ast: &ASTTy, imp: &mut Imports, state: &State, ctx: &Context
         NodeTy::Return { expr } if state.is_remove_last_ret => {
             convert_node(expr, imp, &state.remove_ret(false), ctx)?
         }
-        NodeTy::Return { expr } => Core::Return {
-            expr: Box::from(convert_node(expr, imp, state, ctx)?),
+        NodeTy::Return { expr } => match convert_node(expr, imp, state, ctx)? {
+            // statements in Python: the return is pushed into the branches
+            core @ (Core::IfElse { .. } | Core::Match { .. } | Core::TryExcept { .. }) => {
+                append_ret(&core)
+            }
+            core => Core::Return {
+                expr: Box::from(core),
+            },
         },
 
         NodeTy::IfElse { .. } => convert_cntrl_flow(ast, imp, &old_state, ctx)?,
